@@ -7,8 +7,10 @@ for d in sorted(glob.glob('/verif/seeded/*/meta.json')):
     name = os.path.basename(os.path.dirname(d))
     m = json.load(open(d))
     caught = 'yes' if m['our_check']['caught'] else 'NO'
+    if m.get('status') == 'neutralised':
+        caught = 'n/a (neutralised by a fix)'
     hist = m.get('history', 'caught by the check as it was when the change arrived')
     rows.append(f"| {name} | {m['property']} | {caught} | {hist} |")
-n = len(rows); c = sum(1 for r in rows if '| yes |' in r)
+n = sum(1 for r in rows if 'n/a (neutralised' not in r); c = sum(1 for r in rows if '| yes |' in r)
 open('/verif/seeded/README.md', 'w').write(hdr + '| seed | property | caught by /verif/check <property> (quick) | history |\n| --- | --- | --- | --- |\n' + '\n'.join(rows) + f'\n\n{c} of {n} seeded changes are reported by the quick check of their property.\n')
 print(c, 'of', n)
